@@ -393,7 +393,14 @@ int verify_stats_signal(struct jls_rd_s *rd, const model_t *m, int sig, const ve
             }
             if (start < 0) start = 0;
             if (start + span > length) start = length - span;
-            bad += check_stats_request(rd, m, sig, o, start, incr, count, &def, lv);
+            struct jls_rd_s *use = rd, *fresh = NULL;
+            if (o->fresh_path && rng_chance(r, 1, o->fresh_den > 0 ? o->fresh_den : 8)) {
+                v_api("jls_rd_open");
+                if (!jls_rd_open(&fresh, o->fresh_path)) { use = fresh; v_count(PS(o), "fresh_reader_requests", 1); }
+                v_api("");
+            }
+            bad += check_stats_request(use, m, sig, o, start, incr, count, &def, lv);
+            if (fresh) { v_api("jls_rd_close"); jls_rd_close(fresh); v_api(""); }
             ++nreq;
         }
     }
